@@ -125,11 +125,41 @@ func table() []entry {
 	c32 := func(b []byte) func() []byte { return func() []byte { return append([]byte{}, b...) } }
 	one := func() []byte { b := make([]byte, 32); b[0] = 1; return b }
 	newSc := func() *scalar.Scalar { return scalar.NewFromUint64(77) }
+	// the entry under test goes into batch verifiers in every configuration a caller can set up: fresh, with key
+	// expansion switched off, alone or behind a valid entry, with a capacity hint; all configurations must give the same
+	// answer (the valid companion does not change the conjunction), and batch-only verification must not panic either
 	bvRes := func(f func(v *ed25519.BatchVerifier)) bool {
-		v := ed25519.NewBatchVerifier()
-		f(v)
-		ok, _ := v.Verify(nil)
-		return ok
+		var first bool
+		for mode := 0; mode < 6; mode++ {
+			v := ed25519.NewBatchVerifier()
+			if mode == 5 {
+				v = ed25519.NewBatchVerifierWithCapacity(1)
+			}
+			if mode == 1 || mode == 3 {
+				v.ForceNoPublicKeyExpansion()
+			}
+			if mode == 2 || mode == 3 {
+				v.Add(pub, msgM, goodSig)
+			}
+			f(v)
+			if mode == 4 {
+				v.Add(pub, msgM, goodSig) // the companion after the entry
+			}
+			ok, bits := v.Verify(nil)
+			v.VerifyBatchOnly(nil)
+			ok2, _ := v.Verify(nil) // a verifier can be asked again
+			conj := true
+			for _, b := range bits {
+				conj = conj && b
+			}
+			if mode == 0 {
+				first = ok
+			}
+			if ok != first || ok2 != ok || conj != ok {
+				panic(fmt.Sprintf("batch configurations disagree: configuration %d says %v (bits %v, asked again %v), a fresh verifier says %v", mode, ok, bits, ok2, first))
+			}
+		}
+		return first
 	}
 	not32 := func(b []byte) bool { return len(b) != 32 }
 	return []entry{
